@@ -83,6 +83,43 @@ SPECS["C01"] = dict(
                 params={"quick": {"CLASSLEN": 5, "PAIRS": 0}, "thorough": {"CLASSLEN": 6, "PAIRS": 1}})],
 )
 
+TRANSPORT_COMMON = {"harness/transport/zz_verif_common_test.go": "internal/upstream/transport/zz_verif_common_test.go"}
+E3ENGINES = ("choice", "report", "refdns", "env")
+
+SPECS["C05"] = dict(
+    level="model_checking",
+    engine="E3 evx",
+    state_based=True,
+    technique="exhaustive exploration of environment-event orders (stateless DFS, fault-bounded) on the real PipelineTransport in a virtual-time bubble",
+    claim="For 3 concurrent exchanges on the real pipelined transport (TCP and UDP framing), every order of starts, out-of-order/duplicated/unsolicited replies, "
+          "cancellations, server close and deadline expiry up to the depth and fault bounds - also with the connection's id counter at the end of its life - "
+          "a returned message is one the server sent for that exchange's own frame with the caller's id restored, no reply satisfies two exchanges, and wire ids are never reused on a connection.",
+    trusted="scripted in-memory connections replace the kernel; goroutine order inside one reaction is the Go runtime's (GOMAXPROCS=1); connpool is exercised as-is.",
+    rule="see evidence rule written by the harness",
+    assumptions=["exchanges are symmetric, so they are started in index order", "reply alphabet: well-formed replies echoing the question they answer"],
+    parts=[dict(name="pipeline", pkg="internal/upstream/transport", run="TestVerifC05", go="go1.26", env=E3ENV, gomaxprocs=1, engines=E3ENGINES,
+                files=dict(TRANSPORT_COMMON, **{"harness/transport/zz_verif_c05_test.go": "internal/upstream/transport/zz_verif_c05_test.go"}),
+                params={"quick": {"DEPTH": 7, "FAULTS": 2}, "thorough": {"DEPTH": 9, "FAULTS": 3}},
+                budget={"quick": 60, "thorough": 600})],
+)
+
+SPECS["C06"] = dict(
+    level="model_checking",
+    engine="E3 evx",
+    state_based=True,
+    technique="exhaustive exploration of environment-event orders (stateless DFS, fault-bounded) on the real ReuseConnTransport in a virtual-time bubble",
+    claim="For 3 exchanges on the real one-at-a-time transport, every order of replies (whole / split / aborted), cancellations at any point (before the write "
+          "commits, after the write, mid-reply), stalled writes, server closes and idle/I-O/caller time-outs up to the bounds: a connection never carries a second query "
+          "before the previous reply was completely delivered, a closed or aborted connection is never reused, and every returned message is the reply to the caller's own query.",
+    trusted="scripted in-memory connections replace the kernel; goroutine order inside one reaction is the Go runtime's (GOMAXPROCS=1).",
+    rule="see evidence rule written by the harness",
+    assumptions=["server sends one reply per query (as the property states)"],
+    parts=[dict(name="reuse", pkg="internal/upstream/transport", run="TestVerifC06", go="go1.26", env=E3ENV, gomaxprocs=1, engines=E3ENGINES,
+                files=dict(TRANSPORT_COMMON, **{"harness/transport/zz_verif_c06_test.go": "internal/upstream/transport/zz_verif_c06_test.go"}),
+                params={"quick": {"DEPTH": 7, "FAULTS": 2}, "thorough": {"DEPTH": 9, "FAULTS": 3}},
+                budget={"quick": 60, "thorough": 600})],
+)
+
 
 # --------------------------------------------------------------------------------------------
 # Properties not (yet) claimed. Kept current: every property without a SPECS entry must be here.
